@@ -36,6 +36,8 @@ pub struct Stats {
     pub calls: u64,
     pub distinct: BTreeSet<u64>,
     pub counters: BTreeMap<String, u64>,
+    /// rolling hash of the event log of the current run (reset by the driver per run)
+    pub evhash: u64,
 }
 
 impl Stats {
@@ -44,6 +46,20 @@ impl Stats {
     }
     pub fn add(&mut self, k: &str, n: u64) {
         *self.counters.entry(k.to_string()).or_insert(0) += n;
+    }
+    pub fn fold(&mut self, x: u64) {
+        self.evhash = (self.evhash ^ x).wrapping_mul(0x100_0000_01b3).rotate_left(23) ^ 0x9E37_79B9;
+    }
+    /// fold a trapped-instruction / event trace into the run's event hash
+    pub fn fold_trace(&mut self, trace: &[crate::cpu::Ev]) {
+        for e in trace {
+            let s = format!("{e:?}");
+            let mut h = 0xcbf2_9ce4_8422_2325u64;
+            for b in s.bytes() {
+                h = (h ^ b as u64).wrapping_mul(0x100_0000_01b3);
+            }
+            self.fold(h);
+        }
     }
     pub fn distinct_key(&mut self, parts: &[u64]) {
         let mut h = 0xcbf2_9ce4_8422_2325u64;
@@ -317,9 +333,10 @@ pub fn main_driver(e: &dyn Engine) {
                 }
                 let before = (st.steps, st.calls);
                 st.runs += 1;
+                st.evhash = 0;
                 let v = e.run(&rp, &mut st);
                 if let Some(f) = logf.as_mut() {
-                    let _ = writeln!(f, "{seed} steps={} calls={} distinct={} viol={}", st.steps - before.0, st.calls - before.1, st.distinct.len(), v.as_ref().map(|v| format!("{}@{}:{}", v.oracle, v.step, v.detail)).unwrap_or_default());
+                    let _ = writeln!(f, "{seed} steps={} calls={} distinct={} evhash={:016x} viol={}", st.steps - before.0, st.calls - before.1, st.distinct.len(), st.evhash, v.as_ref().map(|v| format!("{}@{}:{}", v.oracle, v.step, v.detail)).unwrap_or_default());
                 }
                 if let Some(v) = v {
                     let mut rp = rp;
